@@ -74,7 +74,10 @@ class C14(Check):
             k = rng.randint(0, 13) if u < 0.5 else rng.randint(0, 3)
             return float(f"{m}e-{k}")
         script = [val() for _ in range(total)]
-        signed = rng.random() < 0.25
+        rl = rng.random() < 0.15
+        # (signed losses only with the round-robin scheduler: the RL reward, a relative improvement, is undefined once the
+        # reference best is exactly 0 and a negative loss follows - the division by zero ends the agent's thread)
+        signed = not rl and rng.random() < 0.25
         if signed:
             # a loss that can be negative (user-defined / likelihood-type): the stop rule looks at the *smallest* loss
             script = [-v if rng.random() < 0.3 else v for v in script]
@@ -83,7 +86,11 @@ class C14(Check):
             pos = rng.randrange(0, min(len(script), calls[0] * 2))
             script[pos] = float(f"{rng.choice([1, 2, 3, 4])}e-{prec + 1 + rng.randint(0, 2)}")
         E = rng.randint(1, 2)  # noqa: N806
-        cfg = {"space": calsim.gen_space(rng, dims), "lineup": lineup, "scheduler": {"kind": "rr"},
+        sched = {"kind": "rr"}
+        if rl:
+            # the stop rule is the calibrator's: it must hold just the same when the scheduler runs an agent on a second thread
+            sched = {"kind": "rl", "agent": {"kind": "scripted", "script": [rng.randrange(8) for _ in range(rng.randint(1, 6))]}}
+        cfg = {"space": calsim.gen_space(rng, dims), "lineup": lineup, "scheduler": sched,
                "loss": {"cls": "readoff", "opts": {}} if signed else {"cls": "minkowski", "opts": {"p": 1}},
                "model": {"kind": "scripted", "D": 1, "extreme": 0.0},
                "N": 1, "sim_length": None, "real_seed": 0, "ensemble": E, "cal_seed": rng.randrange(2 ** 31),
@@ -91,7 +98,7 @@ class C14(Check):
         env = {"verbose": rng.random() < 0.5, "folder": rng.random() < 0.5}
         ops = [["calibrate", n] for n in calls]
         scn_restore = env["folder"] and len(ops) > 1 and rng.random() < 0.3
-        if len(ops) > 1 and not scn_restore and rng.random() < 0.15:
+        if len(ops) > 1 and not scn_restore and not rl and rng.random() < 0.15:
             k = rng.randrange(0, len(ops) - 1)
             ops[k] = ["calibrate_fault_update", ops[k][1], rng.randrange(ops[k][1])]     # the scheduler hook raises once; the caller goes on
         scn = {"engine": "calsim", "config": cfg, "env": env, "ops": ops, "sim_seed": rng.randrange(2 ** 31)}
@@ -186,6 +193,8 @@ class C14(Check):
                 res.add("verbosity-dependence", "twin", f"call {k}: verbose={sim.env['verbose']} gives batch index {ra['snap']['batch_index']}, "
                                                         f"verbose={twin.env['verbose']} gives {rb['snap']['batch_index']} (differs in {d})")
                 break
+        if any(early) and cfg["scheduler"]["kind"] == "rl":
+            res.stats["probe:stopped-early-under-rl-scheduler"] += 1
         if any(early):
             res.stats["probe:stopped-early"] += 1
             if want[0][0] == 1 and early and early[0]:
